@@ -24,9 +24,14 @@ def run(tier, replay=None):
     four, g4 = gen.run_generator("GenMod", work / "gen4", cfg="GenMod4", timeout=1200)
     if tier == "quick" and len(four) > 1500:
         four = rnd.sample(four, 1500)
-    cases = small + four
+    # sub-directory layouts (modules k..n in `sub/`): every DAG over <= 3 modules x import form x spelling x layout
+    lay, gl = gen.run_generator("GenMod", work / "genl", cfg="GenModL", timeout=1200)
+    lay = [c for c in lay if c["lay"] != 0]
+    if tier == "quick" and len(lay) > 1500:
+        lay = rnd.sample(lay, 1500)
+    cases = small + four + lay
     for c in cases:
-        c["id"] = f"n={c['n']} bare={[k + 1 for k, b in enumerate(c['bare']) if b]} " + " ".join(f"{e['i']}>{e['j']}:{e['form'][0]}{e['spell'][0]}{e['place'][0]}" for e in c["edges"])
+        c["id"] = (f"sub>={c['lay']} " if c.get("lay") else "") + f"n={c['n']} bare={[k + 1 for k, b in enumerate(c['bare']) if b]} " + " ".join(f"{e['i']}>{e['j']}:{e['form'][0]}{e['spell'][0]}{e['place'][0]}" for e in c["edges"])
     cases = gen.dedupe(cases, lambda c: c["id"])
     C.log(f"[{PID}] {len(cases)} projects")
     dis, skips, st = l1.run_cases(binary, work, cases, trace=True)
